@@ -1703,3 +1703,8 @@ TABLE["C03"] += [
     B("unary-operators-bound-as-binary", {"A11"}, (PW, "            elif op.is_unary:\n", "            elif op.is_unary and op.operator == '-':\n")),
     N("operators-through-a-list-of-pieces", (PW, _OPS_TAIL, "                res += template.format(\"py::self {0} py::self\".format(\n                    op.operator))\n        pieces = [res]\n        return \"\".join(pieces)\n")),
 ]
+TABLE["C04"] += [
+    B("free-function-scope-relative-to-the-top-module", {"B6"}, (PW, "            return '::'.join(namespaces[idx:] + [name])", "            return '::'.join(namespaces[len(self.top_module_namespaces):] + [name])")),
+    B("free-function-named-serialize-dropped", {"B12"}, (PW, "            function_name = function.name\n", "            function_name = function.name\n            if function_name == 'serialize':\n                continue\n")),
+    N("free-function-scope-by-slice", (PW, "            idx = 1 if not namespaces[0] else 0\n            return '::'.join(namespaces[idx:] + [name])", "            scope = namespaces[1:] if not namespaces[0] else namespaces\n            return '::'.join(scope + [name])")),
+]
